@@ -298,6 +298,7 @@ def extras(chk):
             meta[cid] = desc
             chk.nontrivial((lib, json.dumps(d, sort_keys=True)))
     self_dependent_defaults(chk, cases, meta, genmod)
+    nested_instances(chk, cases, meta, genmod)
     can = []
     for c in cases:
         if len(can) >= 15:
@@ -382,6 +383,88 @@ def self_dependent_defaults(chk, cases, meta, genmod):
         cases.append({'id': cid, 'fields': fields, 'frozen': False, 'slots': False, 'names': names,
                       'callname_ok': obs[0] == 'call' and obs[1] == 'verif_c17gen.Span' and not obs[2], 'equal': bool(equal)})
         meta[cid] = desc
+
+
+def nested_instances(chk, cases, meta, genmod):
+    """Fields whose VALUES (and declared defaults) are themselves dataclass / attrs instances, directly and inside
+    containers: each is printed as it would be on its own (a call of its class, not a dict of its fields), compared
+    with its default as an instance, and the text reconstructs an equal object."""
+    @dataclasses.dataclass
+    class Leaf:
+        a: int = 0
+        b: list = dataclasses.field(default_factory=list)
+
+    @dataclasses.dataclass(frozen=True)
+    class FLeaf:
+        a: int = 1
+        b: str = 'x'
+
+    @dataclasses.dataclass
+    class Outer:
+        first: object
+        second: object = None
+        third: Leaf = dataclasses.field(default_factory=Leaf)
+        fourth: FLeaf = FLeaf()
+
+    @attr.s
+    class ALeaf:
+        a = attr.ib(default=0)
+
+    @attr.s
+    class AOuter:
+        first = attr.ib()
+        second = attr.ib(default=None)
+        third = attr.ib(factory=ALeaf)
+        fourth = attr.ib(default=attr.Factory(lambda: [ALeaf(7)]))
+    for c in (Leaf, FLeaf, Outer, ALeaf, AOuter):
+        c.__module__ = 'verif_c17gen'
+        c.__qualname__ = c.__name__
+        setattr(genmod, c.__name__, c)
+    dc = [Outer(1), Outer(Leaf(2, [3])), Outer([Leaf(), FLeaf(5)], {'k': Leaf(1)}), Outer(1, None, Leaf(), FLeaf()),
+          Outer(1, None, Leaf(9)), Outer(1, None, Leaf(), FLeaf(2, 'y')), Outer((FLeaf(), FLeaf(3)), Outer(Leaf()))]
+    at = [AOuter(1), AOuter(ALeaf(2)), AOuter([ALeaf()], {'k': ALeaf(1)}), AOuter(1, None, ALeaf(), [ALeaf(7)]),
+          AOuter(1, None, ALeaf(4)), AOuter(1, None, ALeaf(), [ALeaf(8)]), AOuter(AOuter(ALeaf(1)))]
+    for inst in dc + at:
+        is_dc = dataclasses.is_dataclass(inst)
+        cls = type(inst)
+        if is_dc:
+            fields = [{'dflt': 'none', 'repr': True, 'same': False},
+                      {'dflt': 'value', 'repr': True, 'same': inst.second is None},
+                      {'dflt': 'factory', 'repr': True, 'same': inst.third == Leaf()},
+                      {'dflt': 'value', 'repr': True, 'same': inst.fourth == FLeaf()}]
+        else:
+            fields = [{'dflt': 'none', 'repr': True, 'same': False},
+                      {'dflt': 'value', 'repr': True, 'same': inst.second is None},
+                      {'dflt': 'factory', 'repr': True, 'same': inst.third == ALeaf()},
+                      {'dflt': 'factory', 'repr': True, 'same': inst.fourth == [ALeaf(7)]}]
+        desc = {'library': 'dataclasses' if is_dc else 'attrs', 'definition': cls.__name__ + ' with instance-valued fields',
+                'instance': repr(inst)}
+        for w in (200, 30):
+            try:
+                with warnings.catch_warnings(record=True) as wl:
+                    warnings.simplefilter('always')
+                    out = P.pformat(inst, width=w)
+                obs = pyterm.parse_output(out)
+            except Exception as e:  # noqa
+                chk.violation('C17.raises', 'printing %r raised %r' % (desc, e), desc)
+                continue
+            if any('raised an exception' in str(x.message) for x in wl):
+                chk.violation('C17.printer-failed', 'the %s printer failed for %r' % (desc['library'], desc['instance']), desc)
+                continue
+            d = dict(desc, output=out, width=w)
+            names = [{'first': 'f1', 'second': 'f2', 'third': 'f3', 'fourth': 'f4'}.get(k, k) for k, _ in obs[3]] \
+                if obs[0] == 'call' else ['<not a call>']
+            try:
+                back = eval(out, {'verif_c17gen': genmod})
+                equal = type(back) is cls and back == inst
+            except Exception:
+                equal = False
+            cid = len(cases) + 1
+            cases.append({'id': cid, 'fields': fields, 'frozen': False, 'slots': False, 'names': names,
+                          'callname_ok': obs[0] == 'call' and obs[1] == 'verif_c17gen.' + cls.__name__ and not obs[2],
+                          'equal': bool(equal)})
+            meta[cid] = d
+            chk.nontrivial(('nested-instances', repr(inst), w))
 
 
 def rng_width(chk):
